@@ -541,6 +541,27 @@ def run(ctx):
                 shutil.rmtree(root, ignore_errors=True)
     computed_zoo()
 
+    # (iii-j) unions that are the same target-language type through an alias used *inside* a case
+    def alias_inside_union_case():
+        model = ("Label: string\nCount: uint32\nPoint: !record\n  fields:\n    x: float\nPt: Point\n"
+                 "AuRec: !record\n  fields:\n    a: !union {m: string->int, f: float}\n    b: !union {m: Label->int, f: float}\n    c: !union {v: string*, i: int}\n    d: !union {v: Label*, i: int}\n"
+                 "    e: !union {arr: 'uint32[]', s: string}\n    f: !union {arr: 'Count[]', s: string}\n"
+                 "    g: !union {pv: Point*, pi: int}\n    h: !union {pv: Pt*, pi: int}\n    i: !union {pm: string->Point, pn: bool}\n    j: !union {pm: Label->Pt, pn: bool}\n"
+                 "AuProto: !protocol\n  sequence:\n    r: AuRec\n    s: !stream\n      items: !union {m: Label->int, f: float}\n    t: !union {m: string->int, f: float}\n")
+        root = os.path.join(ctx.workdir, "cases", "alias_inside_union_case")
+        shutil.rmtree(root, ignore_errors=True)
+        outs = ("cpp:\n  sourcesOutputDir: ../out/cpp\n  generateHDF5: false\n  generateCMakeLists: false\n  overrideArrayHeader: %s\npython:\n  outputDir: ../out/python\n"
+                "matlab:\n  outputDir: ../out/matlab\n" % cxx.ARRAY_HEADER)
+        common.write_tree(root, {"pkg/_package.yml": "namespace: AliasUnion\n" + outs, "pkg/model.yml": model})
+        res = check_outputs(ctx, root, os.path.join(root, "pkg"), home, "pairs of unions that differ only in an alias used inside a case (map key, vector / array item, map value)", "alias-inside-union-case", full_cpp=True)
+        ctx.case(("alias-inside-union-case",))
+        ctx.count("alias-inside-union-case.%s" % res)
+        if res == "rejected":
+            ctx.violation("valid-model-rejected:alias-inside-union-case", "the model is rejected", {"case_dir": root})
+        elif res != "bad":
+            shutil.rmtree(root, ignore_errors=True)
+    alias_inside_union_case()
+
     # (iv) init scaffolds
     def init(nm):
         root = os.path.join(ctx.workdir, "cases", "init_%s" % nm[:30])
